@@ -151,9 +151,13 @@ fn check_blocks(blocks: &[(usize, usize)], sink: &Sink) -> u64 {
     let base = format!("n{}", NONCE.fetch_add(1, Ordering::Relaxed));
     let (files, _) = build(blocks, &base);
     let input_json = json!({"blocks": blocks.iter().map(|(b, f)| json!([b, f])).collect::<Vec<_>>()});
-    let make = |schedule: u64| Input { files: build(blocks, &format!("{base}s{schedule}")).0, ..Default::default() };
+    let names: Vec<String> = files.iter().map(|f| f.0.clone()).collect();
+    let mut total = 0;
+    for (oi, order) in crate::core::permutations(names.len()).into_iter().enumerate() {
+    let map_order: Vec<String> = order.iter().map(|&i| names[i].clone()).collect();
+    let make = |schedule: u64| Input { files: build(blocks, &format!("{base}o{oi}s{schedule}")).0, map_order: Some(map_order.clone()), ..Default::default() };
     let stats = e2::explore_with(make, None, 2000, |schedule, outcome, trace| {
-        let nonce = format!("{base}s{schedule}");
+        let nonce = format!("{base}o{oi}s{schedule}");
         let plans = build(blocks, &nonce).1;
         sink.exec();
         sink.outcome(format!("k={}:{}:faults={}", blocks.len(), outcome.class(), plans.iter().filter(|p| is_fault(p.behaviour)).count().min(2)));
@@ -165,13 +169,15 @@ fn check_blocks(blocks: &[(usize, usize)], sink: &Sink) -> u64 {
     if stats.capped {
         sink.machinery("C19: schedule cap hit");
     }
+    total += stats.schedules;
+    }
     if !blocks.is_empty() {
         sink.nontrivial();
     }
     if blocks.len() == 2 {
         sink.sample(|| json!({"input": input_json, "files": files}));
     }
-    stats.schedules
+    total
 }
 
 // ---- verbatim transport of conditions and contents -------------------------------------------
@@ -244,7 +250,8 @@ fn whole_run_faults(sink: &Sink) -> u64 {
             let nonce = format!("w{}", NONCE.fetch_add(1, Ordering::Relaxed));
             let (files, plans) = build(&blocks, &nonce);
             let input_json = json!({"whole_run_fault": what, "blocks": blocks.len()});
-            let stats = e2::explore(&Input { files, ..Default::default() }, None, 500, |outcome, _| {
+            let order: Vec<String> = files.iter().map(|f| f.0.clone()).collect();
+            let stats = e2::explore(&Input { files, map_order: Some(order), ..Default::default() }, None, 500, |outcome, _| {
                 n += 1;
                 sink.exec();
                 sink.outcome(format!("{what}:{}", outcome.class()));
